@@ -560,6 +560,23 @@ func isZeroKey(v interface{}) bool {
 		return x == 0
 	case uint64:
 		return x == 0
+	case float32:
+		return x == 0
+	case float64:
+		return x == 0
+	case bool:
+		return !x
+	case string:
+		// ('0', '0.0': the database converts the text before it looks at the value)
+		number, err := strconv.ParseFloat(strings.TrimSpace(x), 64)
+		return err == nil && number == 0
+	case []byte:
+		number, err := strconv.ParseFloat(strings.TrimSpace(string(x)), 64)
+		return err == nil && number == 0
+	case fmt.Stringer:
+		// (a DECIMAL literal of the parser: 0.0)
+		number, err := strconv.ParseFloat(strings.TrimSpace(x.String()), 64)
+		return err == nil && number == 0
 	}
 	return false
 }
